@@ -67,6 +67,11 @@ struct CaseOut {
     fault_step: Option<String>,
     quarantined: u64,
     compared: u64,
+    parked: u64,
+    unparked: u64,
+    /// known-finding candidates: (signature, detail); reported through the known-findings matcher
+    side: Vec<(String, String)>,
+    failed_put_key_err: u64,
 }
 
 #[allow(dead_code)]
@@ -114,8 +119,154 @@ fn resync_dir<const N: usize>(d: &mut Driver<N>, out: &mut CaseOut) -> Result<()
     Ok(())
 }
 
-async fn run_case<const N: usize>(d: &mut Driver<N>, ops: &[Op], fault: Option<Fault>, label: &str) -> CaseOut {
-    let mut out = CaseOut { violation: None, fired: false, outcome: "not-fired", fault_step: None, quarantined: 0, compared: 0 };
+/// ignore_corrupted mode: a blob that could not be opened / loaded at init is left in place and not served.
+/// Such blobs are "parked": taken out of the model (the storage answers without them) after checking that the
+/// file still holds the bytes of every acknowledged record, and put back as soon as a later init lists their
+/// id again - from then on all their records must be served again.
+async fn park_ignored<const N: usize>(d: &mut Driver<N>, parked: &mut BTreeMap<usize, Vec<crate::model::Rec>>, out: &mut CaseOut) -> Result<(), (String, String)> {
+    // ids the storage serves: closed blobs by id, the active blob's id through the tap (its entry carries a position)
+    let det = d.st().records_count_detailed().await;
+    let active = d.probe_active_id().await;
+    let n_closed = if active.is_some() { det.len().saturating_sub(1) } else { det.len() };
+    let listed: Vec<usize> = det.iter().take(n_closed).map(|x| x.0).chain(active.into_iter()).collect();
+    // un-park: the id is served again (by the same file: ids are never reused)
+    let back: Vec<usize> = parked.keys().copied().filter(|id| listed.contains(id)).collect();
+    for id in back {
+        let mut recs = parked.remove(&id).unwrap();
+        if let Some(newer) = d.model.blobs.get(&id) {
+            recs.extend(newer.iter().cloned());
+        }
+        d.model.blobs.insert(id, recs);
+        d.model.ids_ever.insert(id);
+        out.unparked += 1;
+    }
+    let on_disk = d.dir_blob_ids();
+    let model_ids: Vec<usize> = d.model.blobs.keys().copied().collect();
+    for id in model_ids {
+        if listed.contains(&id) || !on_disk.contains(&id) || d.model.blobs[&id].is_empty() {
+            continue;
+        }
+        let bytes = std::fs::read(d.dir.join(format!("t.{}.blob", id))).unwrap_or_default();
+        for r in d.model.blobs[&id].iter().filter(|r| !r.del && r.size >= 8) {
+            let v = value_bytes(r.val, r.size);
+            if !bytes.windows(v.len()).any(|w| w == v.as_slice()) {
+                return Err(("ignored-blob-lost-record".into(), format!("blob {} was skipped at init (ignore_corrupted) and its file no longer contains the bytes of an acknowledged {} B record", id, r.size)));
+            }
+        }
+        let recs = d.model.blobs.remove(&id).unwrap();
+        d.model.closed.retain(|c| *c != id);
+        if d.model.active == Some(id) {
+            d.model.active = None;
+        }
+        parked.insert(id, recs);
+        out.parked += 1;
+    }
+    Ok(())
+}
+
+/// Real kernel failures instead of failpoints: RLIMIT_FSIZE is lowered for the duration of one step, so that
+/// the write crossing the limit is cut short by the kernel and fails with EFBIG (SIGXFSZ ignored), like a
+/// full disk. Nothing between the system call and pearl's error handling is bypassed.
+#[derive(Clone, Debug)]
+pub struct RlimitFault {
+    pub step: usize,
+    /// limit = size of the active blob file + `extra` (relative) or `extra` itself (absolute)
+    pub extra: u64,
+    pub absolute: bool,
+}
+
+struct FsizeGuard {
+    old: libc::rlimit,
+}
+
+impl FsizeGuard {
+    fn lower(limit: u64) -> Option<FsizeGuard> {
+        unsafe {
+            libc::signal(libc::SIGXFSZ, libc::SIG_IGN);
+            let mut old = libc::rlimit { rlim_cur: 0, rlim_max: 0 };
+            if libc::getrlimit(libc::RLIMIT_FSIZE, &mut old) != 0 {
+                return None;
+            }
+            let new = libc::rlimit { rlim_cur: limit as libc::rlim_t, rlim_max: old.rlim_max };
+            if libc::setrlimit(libc::RLIMIT_FSIZE, &new) != 0 {
+                return None;
+            }
+            Some(FsizeGuard { old })
+        }
+    }
+}
+
+impl Drop for FsizeGuard {
+    fn drop(&mut self) {
+        unsafe {
+            libc::setrlimit(libc::RLIMIT_FSIZE, &self.old);
+        }
+    }
+}
+
+/// Keys that have, in a blob file of the work dir, a record whose header is intact and whose data is torn:
+/// the trace of a failed append that got beyond the record header before the kernel refused the rest.
+fn torn_intact_header_keys<const N: usize>(d: &Driver<N>) -> Vec<u16> {
+    let mut out = Vec::new();
+    for id in d.dir_blob_ids() {
+        if let Ok(bp) = crate::parse::parse_blob_file(&d.dir.join(format!("t.{}.blob", id))) {
+            for r in bp.records.iter().filter(|r| r.header_crc_ok && !r.data_crc_ok && !r.deleted()) {
+                for k in 0..(d.cfg.n_keys + 2) {
+                    if crate::drive::key_bytes(d.cfg.key_salt, k, N) == r.key && !out.contains(&k) {
+                        out.push(k);
+                    }
+                }
+            }
+        }
+    }
+    out
+}
+
+/// After a restart that followed the fault: a torn record with an intact header may have been indexed by an
+/// index regeneration without data validation. Reads of that key then fail. If the key has acknowledged
+/// versions this is reported under one canonical signature (a listed known finding), otherwise (the key was
+/// never acknowledged: an error is not "served as if it had succeeded") it is only counted. Either way the
+/// key is excluded from the model comparison afterwards.
+async fn probe_torn_keys<const N: usize>(d: &mut Driver<N>, out: &mut CaseOut) {
+    for k in torn_intact_header_keys(d) {
+        if d.tainted.contains(&k) {
+            continue;
+        }
+        let key = d.key(k);
+        let e1 = d.st().read(&key).await.err().map(|e| format!("{:#}", e));
+        let e2 = match d.st().read_all_with_deletion_marker(&key).await {
+            Err(e) => Some(format!("{:#}", e)),
+            Ok(entries) => {
+                let mut err = None;
+                for mut en in entries {
+                    if en.is_deleted() {
+                        continue;
+                    }
+                    if let Err(e) = en.load_data().await {
+                        err = Some(format!("load_data: {:#}", e));
+                        break;
+                    }
+                }
+                err
+            }
+        };
+        if let Some(e) = e1.or(e2) {
+            d.tainted.insert(k);
+            if d.model.ranked(k).is_empty() {
+                out.failed_put_key_err += 1;
+            } else {
+                let short: String = e.chars().take(160).collect();
+                out.side.push(("torn-append-intact-header/acknowledged-version-unreadable-after-restart".to_string(), format!("a failed append left a record of k{} with an intact header and torn data in the blob; after a restart reads of k{} fail ({}), although {} acknowledged version(s) of the key exist", k, k, short, d.model.ranked(k).len())));
+            }
+        }
+    }
+}
+
+async fn run_case<const N: usize>(d: &mut Driver<N>, ops: &[Op], fault: Option<Fault>, rl: Option<RlimitFault>, label: &str) -> CaseOut {
+    let mut out = CaseOut { violation: None, fired: false, outcome: "not-fired", fault_step: None, quarantined: 0, compared: 0, parked: 0, unparked: 0, side: Vec::new(), failed_put_key_err: 0 };
+    let mut restarted_since_fault = false;
+    let mut parked: BTreeMap<usize, Vec<crate::model::Rec>> = BTreeMap::new();
+    let ignore_mode = d.cfg.ignore_corrupted;
     let dir = d.dir.clone();
     tap::arm(&dir, false, false);
     macro_rules! fail {
@@ -137,15 +288,29 @@ async fn run_case<const N: usize>(d: &mut Driver<N>, ops: &[Op], fault: Option<F
         tap::set_faults(&dir, vec![f]);
     }
     let mut fault_active = fault.is_some();
-    for op in ops.iter() {
+    let has_fault = fault.is_some() || rl.is_some();
+    for (op_idx, op) in ops.iter().enumerate() {
         let backup = d.model.clone();
+        let guard = match rl.as_ref().filter(|r| r.step == op_idx) {
+            Some(r) => {
+                let base = if r.absolute {
+                    0
+                } else {
+                    d.model.active.and_then(|a| std::fs::metadata(dir.join(format!("t.{}.blob", a))).ok()).map(|m| m.len()).unwrap_or(0)
+                };
+                FsizeGuard::lower(base + r.extra)
+            }
+            None => None,
+        };
+        let lowered = guard.is_some();
         let r = d.step(op).await;
         let worker_ok = match d.storage.as_ref() {
             Some(s) => s.verif_barrier(true).await,
             None => true,
         };
+        drop(guard);
         let ev = tap::drain(&dir);
-        let injected_now = ev.iter().any(|e| e.injected);
+        let injected_now = ev.iter().any(|e| e.injected) || (lowered && ev.iter().any(|e| !e.ok));
         if injected_now {
             out.fired = true;
             fault_active = false;
@@ -186,6 +351,11 @@ async fn run_case<const N: usize>(d: &mut Driver<N>, ops: &[Op], fault: Option<F
                         if let Err((sig, det)) = resync_dir(d, &mut out) {
                             fail!(format!("{}/{}", sig, label), det);
                         }
+                        if ignore_mode {
+                            if let Err((sig, det)) = park_ignored(d, &mut parked, &mut out).await {
+                                fail!(format!("{}/{}", sig, label), det);
+                            }
+                        }
                         d.resync_lifecycle().await;
                     }
                     _ => {}
@@ -193,7 +363,7 @@ async fn run_case<const N: usize>(d: &mut Driver<N>, ops: &[Op], fault: Option<F
             }
             Err(m) => {
                 let when = if out.fired { "after-fault" } else { "before-fault" };
-                if !out.fired && fault.is_some() {
+                if !out.fired && has_fault {
                     // disagreement that has nothing to do with the fault: owned by the model checks
                     out.outcome = "desync";
                     if let Some(s) = d.storage.take() {
@@ -216,14 +386,25 @@ async fn run_case<const N: usize>(d: &mut Driver<N>, ops: &[Op], fault: Option<F
                     if let Err((sig, det)) = resync_dir(d, &mut out) {
                         fail!(format!("{}/{}", sig, label), det);
                     }
+                    if ignore_mode {
+                        if let Err((sig, det)) = park_ignored(d, &mut parked, &mut out).await {
+                            fail!(format!("{}/{}", sig, label), det);
+                        }
+                    }
                     let _ = lazy;
                     d.resync_lifecycle().await;
                 }
             }
         }
+        if out.fired && matches!(op, Op::Restart { .. }) && !injected_now {
+            restarted_since_fault = true;
+        }
+        if restarted_since_fault && d.storage.is_some() {
+            probe_torn_keys(d, &mut out).await;
+        }
         if let Err(m) = d.check(S_ALL_QUERIES).await {
             let when = if out.fired { "after-fault" } else { "before-fault" };
-            if !out.fired && fault.is_some() {
+            if !out.fired && has_fault {
                 out.outcome = "desync";
                 if let Some(s) = d.storage.take() {
                     let _ = s.close().await;
@@ -261,7 +442,15 @@ async fn run_case<const N: usize>(d: &mut Driver<N>, ops: &[Op], fault: Option<F
     if let Err((sig, det)) = resync_dir(d, &mut out) {
         fail!(format!("{}/{}", sig, label), det);
     }
+    if ignore_mode {
+        if let Err((sig, det)) = park_ignored(d, &mut parked, &mut out).await {
+            fail!(format!("{}/{}", sig, label), det);
+        }
+    }
     d.resync_lifecycle().await;
+    if out.fired {
+        probe_torn_keys(d, &mut out).await;
+    }
     if let Err(m) = d.check(S_ALL_QUERIES).await {
         fail!(format!("{}/after-restart/{}", m.sig, label), format!("after the final restart: {}", m.detail));
     }
@@ -362,12 +551,14 @@ fn eval_history<const N: usize>(ctx: &Ctx, sh: &mut Shard, rng: &mut Rng, cfg: &
         let action = match c.mode {
             0 => Action::Fail(libc::EIO),
             1 => Action::Fail(libc::ENOSPC),
-            _ => Action::Short(rng.range(1, 60), libc::ENOSPC),
+            // always shorter than the smallest record (a deletion marker: header + 8 bytes of empty meta), so the
+            // failed append is torn for real; lengths from the record header size up leave the header intact
+            _ => Action::Short(rng.range(1, (57 + N + 8 - 1) as u64), libc::ENOSPC),
         };
         let fault = Fault { kinds: c.kinds.clone(), suffix: c.suffix.to_string(), nth: n, sticky: false, action: action.clone() };
         let dir = new_dir("c11-");
         let mut d: Driver<N> = Driver::new(dir.clone(), cfg.clone(), hid);
-        let r = block_on_catch(cfg.mt, run_case(&mut d, ops, Some(fault), c.label));
+        let r = block_on_catch(cfg.mt, run_case(&mut d, ops, Some(fault), None, c.label));
         rm_dir(&dir);
         sh.evaluations += 1;
         let replay: Value = json!({"check": "c11", "cfg": cfg.to_json(), "hist_id": hid, "history": history_json(ops), "short": history_short(ops), "fault": {"class": c.label, "nth": n, "action": format!("{:?}", action)}});
@@ -375,6 +566,8 @@ fn eval_history<const N: usize>(ctx: &Ctx, sh: &mut Shard, rng: &mut Rng, cfg: &
             Ok(out) => {
                 sh.add("queries_compared", out.compared);
                 sh.add("blobs_quarantined_at_restart", out.quarantined);
+                sh.add("blobs_skipped_at_init_ignore_mode", out.parked);
+                sh.add("skipped_blobs_served_again_later", out.unparked);
                 if out.fired {
                     sh.add(&format!("fired_{}", c.label), 1);
                     sh.add(&format!("outcome: {}", out.outcome), 1);
@@ -384,6 +577,10 @@ fn eval_history<const N: usize>(ctx: &Ctx, sh: &mut Shard, rng: &mut Rng, cfg: &
                     }
                 } else {
                     sh.add("fault_not_reached", 1);
+                }
+                sh.add("reads_of_never_acknowledged_key_fail_after_torn_append", out.failed_put_key_err);
+                for (sig, detail) in out.side.iter() {
+                    sh.violation(&ctx.known, "C11", ctx.seed, &format!("C11/{}", sig), &format!("fault {} #{} (fired at {:?}): {}", c.label, n, out.fault_step, detail), replay.clone());
                 }
                 if let Some((sig, detail)) = out.violation {
                     sh.violation(&ctx.known, "C11", ctx.seed, &format!("C11/{}", sig), &format!("fault {} #{} (fired at {:?}): {}", c.label, n, out.fault_step, detail), replay);
@@ -397,6 +594,51 @@ fn eval_history<const N: usize>(ctx: &Ctx, sh: &mut Shard, rng: &mut Rng, cfg: &
     }
 }
 
+/// a few RLIMIT_FSIZE cases per history
+fn eval_rlimit<const N: usize>(ctx: &Ctx, sh: &mut Shard, rng: &mut Rng, cfg: &Cfg, ops: &[Op], hid: u64) {
+    let n_cases = if ctx.thorough() { 40 } else { 8 };
+    for _ in 0..n_cases {
+        if !ctx.time_left() {
+            return;
+        }
+        let step = rng.below(ops.len() as u64) as usize;
+        let absolute = rng.chance(1, 3);
+        let extra = if absolute { rng.range(0, 6000) } else { rng.range(0, 120) };
+        let rl = RlimitFault { step, extra, absolute };
+        let label = if absolute { "rlimit-fsize-absolute" } else { "rlimit-fsize-at-blob-end" };
+        let dir = new_dir("c11r-");
+        let mut d: Driver<N> = Driver::new(dir.clone(), cfg.clone(), hid);
+        let r = block_on_catch(cfg.mt, run_case(&mut d, ops, None, Some(rl.clone()), label));
+        rm_dir(&dir);
+        sh.evaluations += 1;
+        let replay: Value = json!({"check": "c11", "cfg": cfg.to_json(), "hist_id": hid, "history": history_json(ops), "short": history_short(ops), "rlimit": {"step": step, "extra": extra, "absolute": absolute}});
+        match r {
+            Ok(out) => {
+                sh.add("queries_compared", out.compared);
+                sh.add("blobs_quarantined_at_restart", out.quarantined);
+                if out.fired {
+                    sh.add(&format!("fired_{}", label), 1);
+                    sh.add(&format!("outcome: {}", out.outcome), 1);
+                    sh.nontrivial.insert(fnv(format!("{}|{}|{}|{}", history_short(ops), label, step, extra).as_bytes()));
+                } else {
+                    sh.add("rlimit_not_reached", 1);
+                }
+                sh.add("reads_of_never_acknowledged_key_fail_after_torn_append", out.failed_put_key_err);
+                for (sig, detail) in out.side.iter() {
+                    sh.violation(&ctx.known, "C11", ctx.seed, &format!("C11/{}", sig), &format!("RLIMIT_FSIZE lowered during step {} ({} B, fired at {:?}): {}", step, extra, out.fault_step, detail), replay.clone());
+                }
+                if let Some((sig, detail)) = out.violation {
+                    sh.violation(&ctx.known, "C11", ctx.seed, &format!("C11/{}", sig), &format!("RLIMIT_FSIZE lowered during step {} ({}, {} B; fired at {:?}): {}", step, if absolute { "absolute" } else { "active blob end +" }, extra, out.fault_step, detail), replay);
+                }
+            }
+            Err(p) => {
+                let short: String = p.chars().take(90).collect();
+                sh.violation(&ctx.known, "C11", ctx.seed, &format!("C11/panic/{}", label), &format!("RLIMIT_FSIZE case: panic {}", short), replay);
+            }
+        }
+    }
+}
+
 pub fn shard(ctx: &Ctx) -> Shard {
     let mut sh = Shard::default();
     let mut rng = Rng::new(ctx.shard_seed());
@@ -405,8 +647,15 @@ pub fn shard(ctx: &Ctx) -> Shard {
     while ctx.time_left() {
         let mut cfg = random_cfg(&mut rng, p.n_keys, p.n_meta, Some(true));
         cfg.validate_data = rng.chance(1, 3);
+        cfg.ignore_corrupted = rng.chance(1, 4);
+        sh.add(if cfg.ignore_corrupted { "histories_ignore_corrupted" } else { "histories_quarantine_mode" }, 1);
         let ops = gen_history(&mut rng, &p);
         let hid = ((ctx.shard as u64) << 20) | n;
+        match cfg.keylen {
+            4 => eval_rlimit::<4>(ctx, &mut sh, &mut rng, &cfg, &ops, hid),
+            32 => eval_rlimit::<32>(ctx, &mut sh, &mut rng, &cfg, &ops, hid),
+            _ => eval_rlimit::<8>(ctx, &mut sh, &mut rng, &cfg, &ops, hid),
+        }
         match cfg.keylen {
             4 => eval_history::<4>(ctx, &mut sh, &mut rng, &cfg, &ops, hid),
             32 => eval_history::<32>(ctx, &mut sh, &mut rng, &cfg, &ops, hid),
@@ -416,4 +665,70 @@ pub fn shard(ctx: &Ctx) -> Shard {
     }
     sh.add("histories", n);
     sh
+}
+
+/// `pv replay` of a C11 witness (failpoint or RLIMIT_FSIZE case); PV_KEEP_DIR=<path> copies the work dir there
+pub fn replay(r: &Value) -> i32 {
+    let cfg = match Cfg::from_json(&r["cfg"]) {
+        Some(c) => c,
+        None => return 2,
+    };
+    let ops = match crate::ops::history_from_json(&r["history"]) {
+        Some(o) => o,
+        None => return 2,
+    };
+    let hid = r["hist_id"].as_u64().unwrap_or(0);
+    let rl = r.get("rlimit").filter(|x| x.is_object()).map(|x| RlimitFault { step: x["step"].as_u64().unwrap_or(0) as usize, extra: x["extra"].as_u64().unwrap_or(0), absolute: x["absolute"].as_bool().unwrap_or(false) });
+    let fault = r.get("fault").filter(|x| x.is_object()).and_then(|x| {
+        let label = x["class"].as_str()?;
+        let c = classes().into_iter().find(|c| c.label == label)?;
+        let a = x["action"].as_str().unwrap_or("");
+        let action = if a.starts_with("Short(") {
+            let n: u64 = a.trim_start_matches("Short(").split(',').next().and_then(|v| v.trim().parse().ok()).unwrap_or(10);
+            Action::Short(n, libc::ENOSPC)
+        } else if a.contains("28") {
+            Action::Fail(libc::ENOSPC)
+        } else {
+            Action::Fail(libc::EIO)
+        };
+        Some((Fault { kinds: c.kinds.clone(), suffix: c.suffix.to_string(), nth: x["nth"].as_u64().unwrap_or(0), sticky: false, action }, c.label))
+    });
+    fn go<const N: usize>(cfg: &Cfg, ops: &[Op], hid: u64, fault: Option<(Fault, &'static str)>, rl: Option<RlimitFault>) -> i32 {
+        let dir = new_dir("c11-replay-");
+        let mut d: Driver<N> = Driver::new(dir.clone(), cfg.clone(), hid);
+        let label = fault.as_ref().map(|f| f.1).unwrap_or("rlimit");
+        let r = block_on_catch(cfg.mt, run_case(&mut d, ops, fault.map(|f| f.0), rl, label));
+        if let Ok(keep) = std::env::var("PV_KEEP_DIR") {
+            let _ = std::process::Command::new("cp").arg("-r").arg(&dir).arg(&keep).status();
+            println!("work dir copied to {}", keep);
+        }
+        rm_dir(&dir);
+        match r {
+            Ok(out) => {
+                println!("fired={} at {:?}; outcome: {}", out.fired, out.fault_step, out.outcome);
+                for (sig, detail) in out.side.iter() {
+                    println!("FINDING {}: {}", sig, detail);
+                }
+                match out.violation {
+                    Some((sig, detail)) => {
+                        println!("MISMATCH {}: {}", sig, detail);
+                        1
+                    }
+                    None => {
+                        println!("case ran to completion without a mismatch ({} queries compared)", out.compared);
+                        0
+                    }
+                }
+            }
+            Err(p) => {
+                println!("PANIC {}", p);
+                1
+            }
+        }
+    }
+    match cfg.keylen {
+        4 => go::<4>(&cfg, &ops, hid, fault, rl),
+        32 => go::<32>(&cfg, &ops, hid, fault, rl),
+        _ => go::<8>(&cfg, &ops, hid, fault, rl),
+    }
 }
